@@ -77,5 +77,11 @@ CHECKS = {
   text="(1) 20 fragments alone and in ordered pairs, in 3 contexts, under the 4 html_image/html_admonition combinations: every html token that a stdlib-parser model classifies as non-convertible must appear as one raw html node with exactly the token content. (2) <img> with each of 9 attributes x 36 values full of option-syntax characters (+ value-less attributes; thorough: attribute pairs), as block, inline and quoted HTML, must give the same image node as the {image} directive written from the same dictionary; 360 div.admonition forms (titles, bodies with inner Markdown, attributes, contexts) must equal the {admonition} directive. (3) 9 GFM-disallowed names x open/close x 3 cases x 12 followers x 8 positions: html.parser finds no disallowed tag in the raw output, and non-tags are unchanged.",
   note="Trusted: stdlib html.parser as tag scanner and top-level model; harness-written directive spelling; fragments with a never-closed tag are unspecified; gfm via create_md_parser with the linkify rule disabled.",
  ),
+ "C06": dict(
+  category="model_checking",
+  technique="bounded exhaustive enumeration of body block sequences x wrapper shapes, executed on the real parser; metamorphic reference: the same Markdown rendered at top level / written in place",
+  text="Every sequence of <= 2 (3) blocks over 23 non-heading block symbols is rendered at top level and inside 15 wrappers (backtick and colon fences of two lengths, option blocks of both styles, nesting 2/3/4 deep with alternating fence kinds, include with and without front matter and inside a note, block substitution): the wrapper node's children must be node-for-node identical (line/source masked; system messages as a multiset) to the top-level rendering. 256 documents put a footnote, link-reference, (target)= or {#id} definition inside an include or substitution and use it before/after, at top level, in a quote, list item or another directive: the use must resolve exactly as with the definition written in place.",
+  note="Trusted: the metamorphic relation; option-looking first lines and Jinja text excluded by grammar; headings excluded (C05). Known finding: link reference definitions inside include/substitution are invisible to outer text tokenised earlier.",
+ ),
 }
 NOT_APPLICABLE = {}
